@@ -322,6 +322,10 @@ class FieldMappingTransformationBase(DetectionItemTransformation):
                     mapped_item.applied_processing_items = (
                         detection_item.applied_processing_items.copy()
                     )
+                    # dataclasses.replace() takes the already modified values as original values
+                    # and the OR-linking of the mapped items can't be expressed in the map the
+                    # item originates from: a plain representation would have another meaning.
+                    mapped_item.disable_conversion_to_plain()
                     mapped_items.append(mapped_item)
                 result = SigmaDetection(mapped_items, item_linking=ConditionOR)
         if field_match or fieldref_match:  # field name was changed or field reference was mapped
